@@ -2,7 +2,7 @@ import GV.Lib.Line
 import GV.Model.ValueConservation
 /-
   op:  vc <era> <valid> <kd> <pd> <dd> <fee> <don> item*      (see harness/c27.go)
-  out: pure=<1|0> vc=<ok|vnc|baddep> bad=<0|1> dep=<0|1>  |  decode-err
+  out: pure=<1|0> next=<ok|vnc|bad|-> vc=<ok|vnc|baddep> bad=<0|1> dep=<0|1>  |  decode-err
 -/
 namespace GV.Drv.C27
 open GV.Line GV.Model.ValueConservation
@@ -125,13 +125,19 @@ def handle (line : String) : GV.Line.Out :=
         | .ok => "ok" | .notConserved => "vnc" | .badDeposit => "baddep"
       -- the model is a pure function: a second validation gives the same verdict and
       -- leaves every reported value unchanged (`pure=1`), which is what the op checks of the code
-      let model := s!"pure=1 vc={v} bad={boolStr (badInputs t)} dep={boolStr (certDepositsBad t)}"
+      -- follow-up transaction spending everything `t` produced: balanced, all inputs resolve
+      let fu := followUp t
+      let next := if (producedUtxo t).isEmpty then "-"
+        else if badInputs fu then "bad" else if rule fu == .ok then "ok" else "vnc"
+      let model := s!"pure=1 next={next} vc={v} bad={boolStr (badInputs t)} dep={boolStr (certDepositsBad t)}"
       -- spec: the ledger formula. An unresolvable input must be rejected by some rule;
       -- otherwise a balance that is not conserved must be rejected by one of the rules.
       let spec :=
-        if badInputs t then "pure=1 vc=ok bad=1*||pure=1 vc=vnc bad=1*||pure=1 vc=baddep bad=1*"
-        else if !specConserved t then "pure=1 vc=vnc*||pure=1 vc=baddep*||pure=1 vc=ok bad=0 dep=1"
-        else "pure=1 *"
+        -- across transactions: what was produced is exactly the outputs (next=ok, or - if nothing)
+        let pf := s!"pure=1 next={if (producedUtxo t).isEmpty then "-" else "ok"} "
+        if badInputs t then s!"{pf}vc=ok bad=1*||{pf}vc=vnc bad=1*||{pf}vc=baddep bad=1*"
+        else if !specConserved t then s!"{pf}vc=vnc*||{pf}vc=baddep*||{pf}vc=ok bad=0 dep=1"
+        else s!"{pf}*"
       let cls :=
         if clsCertAmount t then "cert-amount"
         else if clsZeroPolicyMint t then "zero-policy-mint" else ""
